@@ -5,7 +5,7 @@ from harness import common as C
 from harness import eofgen as G
 from harness import zoo as Z
 
-ANCHORS = ["T3", "T5cpcca", "T5whiten", "T8fwd", "T7chain", "T7inplace", "T7hist"]
+ANCHORS = ["T3", "T5cpcca", "T5whiten", "T8fwd", "T7chain", "T7inplace", "T7hist", "T9text"]
 MODELS = ["CpccaCase"]
 RULE = ("pairs of fields with equal sample count, real and complex, feature counts incl. p > n after PCA, alpha grid in [0,1]^2, use_pca on/off "
         "with integer / fractional / 'all' mode counts, n_modes in 1..rank, MCA/CCA/RDA/CPCCA and Complex/Hilbert variants; non-trivial: >= 6 "
